@@ -86,6 +86,38 @@ pub fn inflate_real(args: &[String]) -> i32 {
     0
 }
 
+// inflatechunks <base> <rawpatch> <spec>...: the real bipatch reader pulled through read() with the cyclic
+// buffer-size schedule <spec> (comma separated), until a call returns 0; prints one line per spec
+pub fn inflate_chunks(args: &[String]) -> i32 {
+    use sha2::{Digest, Sha256};
+    let old = std::fs::read(&args[0]).unwrap();
+    let p = std::fs::read(&args[1]).unwrap();
+    for spec in &args[2..] {
+        let sizes: Vec<usize> = spec.split(',').map(|x| x.parse().unwrap()).collect();
+        let r = (|| -> anyhow::Result<Vec<u8>> {
+            let mut rd = bipatch::Reader::new(Cursor::new(p.clone()), Cursor::new(old.clone()))?;
+            let mut out = Vec::new();
+            let mut i = 0usize;
+            loop {
+                let n = sizes[i % sizes.len()];
+                i += 1;
+                let mut buf = vec![0u8; n];
+                let got = rd.read(&mut buf)?;
+                if got == 0 {
+                    break;
+                }
+                out.extend_from_slice(&buf[..got]);
+            }
+            Ok(out)
+        })();
+        match r {
+            Ok(v) => println!("{}=ok:{}.{}", spec, v.len(), hex::encode(Sha256::digest(&v))),
+            Err(_) => println!("{}=err", spec),
+        }
+    }
+    0
+}
+
 // matches <base> <new>: the Match list bidiff::diff emits, one per line
 pub fn matches(args: &[String]) -> i32 {
     let old = std::fs::read(&args[0]).unwrap();
